@@ -135,6 +135,10 @@ fn main() {
         }
     }
 
+    // the replay is the first entry: make it the smallest failing case found (stable for equal sizes)
+    let size = |x: &(String, String, Vec<String>, Vec<String>)| -> usize { if x.2.is_empty() { x.0.len() } else { x.2.iter().map(|l| l.len()).sum() } };
+    spec_violations.sort_by_key(size);
+    model_mismatches.sort_by_key(size);
     let pairs = |v: &Vec<(String, String, Vec<String>, Vec<String>)>| -> String {
         let items: Vec<String> = v
             .iter()
